@@ -3,7 +3,11 @@
    Only statements closed by `exact` (+ vm_compute witnesses) and Print Assumptions live here.
 
    Model: Model/Classes.v (getAllNormalAnnotateClass with strMap + repeatTypeList, GetBestCreateTypeInfo,
-   GetAllArrayType/GetAllTableType/GetAllTableKeyType without visited set).  Spec: Spec/ClassClosure.v. *)
+   GetAllArrayType/GetAllTableType/GetAllTableKeyType, symbolHasSubKey).  Spec: Spec/ClassClosure.v.
+   Both defects found in round 1 are repaired in /repo and the DEPLOYED model (class_list, model_members, complete_at,
+   define_at, ...) is the repaired code: alias resolution with a visited set (fix 83efc56, c15_fixed_variant) and the
+   class lookup that takes every declaration of a name (fix 53b8e25, c15_split_fixed).  The pre-fix behaviours stay
+   available as `..._v false` and carry the refutations and the round-1 guarded theorems (`*_before`, `*_unfixed`). *)
 From Coq Require Import List NArith Bool Permutation.
 From LH Require Import Base.Res Model.Classes Spec.ClassClosure
      Proofs.ClassesTotal Proofs.ClassesClosure Proofs.ClassesElem Proofs.ClassesSpecExec Proofs.ClassesPaths.
@@ -107,7 +111,7 @@ Print Assumptions C15_complete_full.
 (* ... and go-to-definition on `v.k` lands on a ---@field k line of a class declaration of the closure whenever
    the closure has a member k, and finds no field only when it has none *)
 Theorem C15_define_full :
-  forall tm t f l k, wf_tm tm -> c15_fixed_variant = true ->
+  forall tm t f l k, wf_tm tm ->
     (exists loc, define_at tm (t, f, l) [] k = Ok (Some loc) /\ define_spec tm t k loc) \/
     (define_at tm (t, f, l) [] k = Ok None /\ forall loc, ~ define_spec tm t k loc).
 Proof. exact define_full. Qed.
@@ -233,31 +237,31 @@ Proof.
 Qed.
 Print Assumptions C15_elem_type_acyclic.
 
-(* what the deciding model prints is tied to the faithful recursion: Ok r iff the code returns r,
-   OutOfFuel (printed as `CRASH stack-overflow`) iff the code never returns *)
+(* what the model variant of the code before fix 83efc56 (resolve_model_v false) prints is tied to the faithful
+   recursion: Ok r iff the code returns r, OutOfFuel (printed as `CRASH stack-overflow`) iff the code never returns *)
 Theorem C15_model_decides_unfixed :
-  forall leaf tm, wf_tm tm -> forall t f, c15_fixed_variant = false ->
-    (forall r, resolve_model leaf tm t f = Ok r <-> resolve leaf tm (fuel_of tm) t f = Ok r) /\
-    (resolve_model leaf tm t f = OutOfFuel <-> forall fuel, resolve leaf tm fuel t f = OutOfFuel) /\
-    (forall k, resolve_model leaf tm t f <> Fault k).
+  forall leaf tm, wf_tm tm -> forall t f,
+    (forall r, resolve_model_v false leaf tm t f = Ok r <-> resolve leaf tm (fuel_of tm) t f = Ok r) /\
+    (resolve_model_v false leaf tm t f = OutOfFuel <-> forall fuel, resolve leaf tm fuel t f = OutOfFuel) /\
+    (forall k, resolve_model_v false leaf tm t f <> Fault k).
 Proof. exact resolve_model_unfixed. Qed.
 Print Assumptions C15_model_decides_unfixed.
 
 (* ------------------------------------------------------------------ one indexing step: `v[1].` / `v.k.` (k no member) *)
-(* the function the driver runs (complete_at) offers, after an index, the members of the element type the
-   specification derives (array element first, else table value), and nothing when there is none *)
+(* before fix 83efc56 (complete_at_v false), outside the cyclic class: after an index the members of the element type
+   the specification derives (array element first, else table value), and nothing when there is none *)
 Theorem C15_index_step_members :
-  forall tm t f l, c15_fixed_variant = false ->
+  forall tm t f l,
     cyclic_alias leaf_arr tm t f = false -> cyclic_alias leaf_val tm t f = false ->
     exists r, index_rel tm t f r /\
-      complete_at tm (t, f, l) [None] = Ok (match r with Some e => model_members tm e f l | None => [] end).
+      complete_at_v false tm (t, f, l) [None] = Ok (match r with Some e => model_members tm e f l | None => [] end).
 Proof. exact index_step_members. Qed.
 Print Assumptions C15_index_step_members.
 
 Theorem C15_index_step_closure :
-  forall tm t f l, wf_tm tm -> c15_fixed_variant = false ->
+  forall tm t f l, wf_tm tm ->
     cyclic_alias leaf_arr tm t f = false -> cyclic_alias leaf_val tm t f = false ->
-    exists r o, index_rel tm t f r /\ complete_at tm (t, f, l) [None] = Ok o /\
+    exists r o, index_rel tm t f r /\ complete_at_v false tm (t, f, l) [None] = Ok o /\
       match r with
       | Some e => forall x, In x o <-> members_spec tm e x
       | None => o = []
@@ -287,13 +291,12 @@ Proof. exact fixed_eq_unfixed. Qed.
 Print Assumptions C15_fixed_conservative.
 
 Theorem C15_model_decides_fixed :
-  forall leaf tm t f, c15_fixed_variant = true ->
-    resolve_model leaf tm t f = resolve_fx leaf tm (fuel_of tm) [] t f.
-Proof. exact resolve_model_fixed. Qed.
+  forall leaf tm t f, resolve_model leaf tm t f = resolve_fx leaf tm (fuel_of tm) [] t f.
+Proof. exact resolve_model_deployed. Qed.
 Print Assumptions C15_model_decides_fixed.
 
 Theorem C15_index_step_members_fixed :
-  forall tm t f l, c15_fixed_variant = true ->
+  forall tm t f l,
     complete_at tm (t, f, l) [None] =
       Ok (match index_exec tm t f with Some e => model_members tm e f l | None => [] end).
 Proof. exact index_step_members_fixed. Qed.
@@ -302,7 +305,7 @@ Print Assumptions C15_index_step_members_fixed.
 (* one indexing step of the deployed model, complete: after `v[1].` / `v.k.` (k no member) exactly the members of
    the element type the specification computes; no cyclicity guard and no shadowing guard any more *)
 Theorem C15_index_step_closure_fixed :
-  forall tm t f l, wf_tm tm -> c15_fixed_variant = true ->
+  forall tm t f l, wf_tm tm ->
     exists o, complete_at tm (t, f, l) [None] = Ok o /\
       match index_exec tm t f with
       | Some e => forall x, In x o <-> members_spec tm e x
@@ -314,14 +317,14 @@ Print Assumptions C15_index_step_closure_fixed.
 (* ------------------------------------------------------------------ member prefixes of ANY length (deployed model) *)
 (* following `v<path>` (steps `.k` and `[i]`) never fails and follows the specification path_rel (Spec/ClassClosure.v) *)
 Theorem C15_follow_path :
-  forall tm, wf_tm tm -> c15_fixed_variant = true ->
+  forall tm, wf_tm tm ->
     forall path s, exists r, follow tm s path = Ok r /\ path_rel tm s path r.
 Proof. exact follow_path. Qed.
 Print Assumptions C15_follow_path.
 
 (* completion after `v<path>.`: exactly the member closure of the type the prefix denotes, nothing if it denotes none *)
 Theorem C15_complete_path_full :
-  forall tm s path, wf_tm tm -> c15_fixed_variant = true ->
+  forall tm s path, wf_tm tm ->
     exists r o, path_rel tm s path r /\ complete_at tm s path = Ok o /\
       match r with
       | Some (t', _, _) => forall x, In x o <-> members_spec tm t' x
@@ -332,7 +335,7 @@ Print Assumptions C15_complete_path_full.
 
 (* go-to-definition on `v<path>.k` *)
 Theorem C15_define_path_full :
-  forall tm s path k, wf_tm tm -> c15_fixed_variant = true ->
+  forall tm s path k, wf_tm tm ->
     exists r, path_rel tm s path r /\
       match r with
       | Some (t', _, _) =>
@@ -343,7 +346,20 @@ Theorem C15_define_path_full :
 Proof. exact define_path_full. Qed.
 Print Assumptions C15_define_path_full.
 
-(* the premises about the variant flags are facts of the deployed model *)
+(* loop variables: `for k, x in pairs(v)` / `ipairs(v)` get the element / key type the specification computes *)
+Theorem C15_for_value_fixed :
+  forall tm t f l,
+    for_value tm (t, f, l) = Ok (match index_exec tm t f with Some e => Some (e, f, l) | None => None end).
+Proof. exact for_value_fixed. Qed.
+Print Assumptions C15_for_value_fixed.
+
+Theorem C15_for_pairs_key_fixed :
+  forall tm t f l,
+    for_pairs_key tm (t, f, l) = Ok (match pairs_key_exec tm t f with Some e => Some (e, f, l) | None => None end).
+Proof. exact for_pairs_key_fixed. Qed.
+Print Assumptions C15_for_pairs_key_fixed.
+
+(* the deployed model is the repaired variant in both respects *)
 Theorem C15_deployed_variants : c15_fixed_variant = true /\ c15_split_fixed = true.
 Proof. split; reflexivity. Qed.
 Print Assumptions C15_deployed_variants.
